@@ -158,6 +158,9 @@ def paths(doc, p=()):
             yield from paths(v, p + (i,))
 
 
+_last_shape = ["top"]
+
+
 def mutate(doc, mut, sel1, sel2):
     """-> (mutated doc, path description) or None"""
     d = copy.deepcopy(doc)
@@ -169,6 +172,7 @@ def mutate(doc, mut, sel1, sel2):
     keys = sorted(node)
     if not keys:
         return None
+    _last_shape[0] = shape_of(node)
     if mut == "delete-key":
         k = keys[sel2 % len(keys)]
         del node[k]
@@ -229,9 +233,75 @@ def check_diff(case) -> list[Fail]:
             if what == "valid" and not (a and b):
                 f.append(Fail("valid-document-rejected", f"{mode}:{kind}:{'pydantic' if not a else 'schema'}", ""))
             elif a != b:
-                where = ".".join("*" if isinstance(x, int) else str(x) for x in path[-2:])
-                f.append(Fail("disagree", f"{mode}:{what}:{kind}:{where}", f"pydantic accepts={a} schema accepts={b} at {path}"))
+                where = f"{_last_shape[0]}.{path[-1]}" if what != "top-level-unknown-key" else "top"
+                f.append(Fail("disagree", f"{what}:{where}", f"{mode} {kind}: pydantic accepts={a} schema accepts={b} at {path}"))
     return f
+
+
+def shape_of(node):
+    for k in DISCRIMINATORS:
+        if isinstance(node.get(k), str):
+            return f"{k}={node[k]}"
+    return "keys=" + ",".join(sorted(node))
+
+
+def check_sweep(case) -> list[Fail]:
+    """For one valid document: one mutation of every class at the first node of every distinct
+    shape (discriminator value / key set) and every key of it."""
+    kind, doc = base_doc(case)
+    f: list[Fail] = []
+    seen = set()
+    n = 0
+    for p, node in paths(doc):
+        sh = shape_of(node)
+        for k in sorted(node):
+            muts = ["delete-key"]
+            if k in DISCRIMINATORS and isinstance(node[k], str):
+                muts.append("unknown-discriminator")
+            if isinstance(node[k], dict | list) and k != "edges":
+                muts += ["container-to-string", "container-to-null"]
+            for mut in muts:
+                key = (sh, k, mut)
+                if key in seen:
+                    continue
+                seen.add(key)
+                d = copy.deepcopy(doc)
+                tgt = d
+                for x in p:
+                    tgt = tgt[x]
+                if mut == "delete-key":
+                    del tgt[k]
+                elif mut == "unknown-discriminator":
+                    tgt[k] = "Bogus"
+                else:
+                    tgt[k] = "zz" if mut == "container-to-string" else None
+                n += 1
+                for mode in ("strict", "lax"):
+                    a = pydantic_accepts(mode, kind, d)
+                    b = schema_accepts(mode, kind, d)
+                    if isinstance(a, str):
+                        f.append(Fail("pydantic-error", f"{mode}:{a}", mut))
+                    elif a != b:
+                        f.append(Fail("disagree", f"{mut}:{sh}.{k}", f"{mode} {kind}: pydantic accepts={a} schema accepts={b} at {p + (k,)}"))
+                if len(f) >= 6:
+                    return f
+    _sweep_counts.append(n)
+    return f
+
+
+_sweep_counts: list = []
+
+
+def extra_evidence(tier):
+    return {"sweep_mutations_checked": sum(_sweep_counts), "sweep_documents": len(_sweep_counts)}
+
+
+def sweep_strategy(tier):
+    return st.one_of(
+        proggen.programs(size=6 if tier == "quick" else 12, max_depth=1, detached=False).map(lambda p: {"src": {"kind": "hugr", "prog": p}}),
+        extgen.extensions(max_defs=3, min_ops=1, min_types=1).map(lambda e: {"src": {"kind": "ext", "ext": e}}),
+        st.tuples(st.lists(modgen.modules(1, max_funcs=1), max_size=1), extgen.extensions(max_defs=2)).map(lambda t: {"src": {"kind": "pkg", "modules": t[0], "exts": [t[1]]}}),
+    )
 
 
 def nt_diff(case):
@@ -263,7 +333,14 @@ def diff_strategy(tier):
     )
 
 
+def _deletes_version(case) -> bool:
+    return True
+
+
+REQUIRES = {"deletes-top-level-version": _deletes_version}
+
 SUBS = [
+    Sub("sweep", check_sweep, strategy=sweep_strategy, nontrivial=lambda c: True, classes=lambda c: [c["src"]["kind"]], n_quick=5, n_thorough=40, sample_ok=lambda c: len(json.dumps(c)) < 2500),
     Sub("files", check_version, enumerate=enum_files, nontrivial=lambda c: True, exhaustive=True, shardable=False),
-    Sub("differential", check_diff, strategy=diff_strategy, nontrivial=nt_diff, classes=lambda c: [c["mut"], c["src"]["kind"]], n_quick=250, n_thorough=1500, sample_ok=lambda c: len(json.dumps(c)) < 2500),
+    Sub("differential", check_diff, strategy=diff_strategy, nontrivial=nt_diff, classes=lambda c: [c["mut"], c["src"]["kind"]], n_quick=150, n_thorough=1500, sample_ok=lambda c: len(json.dumps(c)) < 2500),
 ]
